@@ -8,7 +8,7 @@ DROPPED = ['libstdc++ headers (replaced by model/include; std::vector<Token>::it
            'Theo::parse (driver: scan, macro passes, trailing-input loop) is not in the unit',
            'Theo::token_string is a stub returning an arbitrary string (string content is not modelled)']
 MEMBERS = ['lookahead', 'match', 'matchmk', 'mk']
-FLAGS = ['--unwinding-assertions', '--no-malloc-may-fail', '--object-bits', '12']
+FLAGS = ['--unwinding-assertions', '--no-malloc-may-fail']
 
 
 def _build(fn, layout=False):
